@@ -1,6 +1,23 @@
         // ---- choosing the encoding of an instruction (C02)
         pub open spec fn match_resolved(m: asm::InstructionMatch) -> bool { m.encoding is Resolved }
         pub open spec fn resolved_size(m: asm::InstructionMatch) -> int { (m.encoding->Resolved_0).size->0 as int }
+        /// `v` is a value that evaluating the production of match `m` yields in this pass (the states of the file
+        /// server and of the argument context at the time of the call are left out: a relation, not a function)
+        pub uninterp spec fn is_value_of_match(v: expr::Value, m: asm::InstructionMatch, ctx: asm::ResolverContext) -> bool;
+        /// Value::coallesce_to_integer (string -> integer); uninterpreted
+        pub uninterp spec fn coalesced(v: expr::Value) -> expr::Value;
+        /// what resolve_instruction_matches stores for a value
+        pub open spec fn encoding_of(v: expr::Value) -> asm::InstructionMatchResolution {
+            match v {
+                expr::Value::Integer(b) => asm::InstructionMatchResolution::Resolved(b),
+                expr::Value::FailedConstraint(msg) => asm::InstructionMatchResolution::FailedConstraint(msg),
+                _ => asm::InstructionMatchResolution::Unresolved,
+            }
+        }
+        /// the encoding of `m` was recomputed in this call from the arguments of `m0`
+        pub open spec fn encoding_is_fresh(m: asm::InstructionMatch, m0: asm::InstructionMatch, ctx: asm::ResolverContext) -> bool {
+            exists|v: expr::Value| #[trigger] is_value_of_match(v, m0, ctx) && m.encoding == encoding_of(coalesced(v))
+        }
         /// number of resolved matches among the first n
         pub open spec fn count_resolved(ms: Seq<asm::InstructionMatch>, n: int) -> int decreases n {
             if n <= 0 { 0 } else { count_resolved(ms, n - 1) + (if match_resolved(ms[n - 1]) { 1int } else { 0int }) }
